@@ -117,3 +117,118 @@ def must_fail_twin(r, name, run_twin):
         r.add(name, DISCHARGED, "twin", time.time() - t0, "perturbed contract fails: " + ", ".join(failed[:3]), kind="vacuity")
     else:
         r.add(name, UNDECIDED, "twin", time.time() - t0, "perturbed contract still verifies: unit is vacuous", kind="vacuity")
+
+
+def run_function(rel, qualname, modes=None, default="havoc", ctx=None, params=None, pre=None, find_kw=None):
+    """Execute a function with per-loop modes: 'iter' (iteration contract: body run once for an arbitrary
+    induction value on an arbitrary state; the results are stashed, execution continues after the loop with
+    everything the loop may write havocked), 'havoc', 'unroll' or 'skip'.  Returns (fn, ex, finals, info);
+    info['iter'][ordinal] = end-of-body states, info['entry'][ordinal] = loop-entry states."""
+    from . import stl as STLM, symex as SX
+    fn = A.find_function(rel, qualname, **(find_kw or {}))
+    if ctx is None:
+        ctx = Ctx()
+        ctx.stl = STLM.STL(SX)
+    modes = modes or {}
+    info = {"iter": {}, "entry": {}}
+
+    def loop(ex, st, node, ordinal):
+        mode = modes.get(ordinal, default)
+        info["entry"].setdefault(ordinal, []).append(st.clone())
+        if mode == "iter":
+            res = ex.iterate_loop(node, st.clone())
+            info["iter"].setdefault(ordinal, []).extend(res)
+            return ex.havoc_loop(node, st)
+        if mode == "unroll":
+            return ex.unroll(node, st)
+        if mode == "skip":
+            return [st]
+        return ex.havoc_loop(node, st)
+    ctx.loop = loop
+    ex = Exec(ctx)
+    st = State()
+    if pre:
+        st.pc = list(pre)
+    finals = ex.run(fn, st, params=params)
+    names = {}
+    for x in A.walk(fn):
+        if x.get("kind") in ("VarDecl", "ParmVarDecl") and "name" in x:
+            names.setdefault(x["name"], x["id"])
+    info["names"] = names
+    return fn, ex, finals, info
+
+
+def local_of(info, st, name):
+    v = st.locals.get(info["names"][name])
+    if isinstance(v, tuple):
+        raise Undecided("local %s is not a scalar" % name)
+    return v
+
+
+def iter_events(st):
+    k0 = max([i for i, e in enumerate(st.events) if getattr(e, "name", "") == "iter_begin"] or [-1])
+    return st.events[k0 + 1:]
+
+
+def iter_writes(st):
+    """[(key, index, value)] written during the iteration (stores above the loop-entry arrays)"""
+    out = []
+    stop = getattr(st, "iter_entry_arrays", {})
+    for key, arr in st.heap.items():
+        a = arr
+        while a.op == "store" and a not in stop.get(key, ()):
+            out.append((key, a.args[1], a.args[2]))
+            a = a.args[0]
+    return out
+
+
+def run_loop_isolated(rel, qualname, ordinal, ctx=None, find_kw=None, inner_modes=None):
+    """Statement contract on one loop: the loop is located by its syntactic ordinal and its body is executed once
+    (iteration contract) from an ARBITRARY state: every local of the function is a free symbol L_<name>, the heap is
+    arbitrary.  The surrounding function is not executed (and is named as unverified by the caller).
+    Returns (fn, ex, states_at_end_of_body, info)."""
+    from . import stl as STLM, symex as SX
+    fn = A.find_function(rel, qualname, **(find_kw or {}))
+    if ctx is None:
+        ctx = Ctx()
+        ctx.stl = STLM.STL(SX)
+    loops = [x for x in A.walk(fn) if x.get("kind") in ("ForStmt", "WhileStmt", "DoStmt")]
+    if ordinal >= len(loops):
+        raise Undecided("function has %d loops, contract names loop %d" % (len(loops), ordinal))
+    node = loops[ordinal]
+    inner_modes = inner_modes or {}
+    def loop(ex, st, n, o):
+        if inner_modes.get(o) == "unroll":
+            return ex.unroll(n, st)
+        return ex.havoc_loop(n, st)
+    ctx.loop = loop
+    ex = Exec(ctx)
+    ex.local_ids = set(); ex.addr_taken = set(); ex.loop_ids = {}
+    names = {}
+    st = State()
+    for x in A.walk(fn):
+        k = x.get("kind")
+        if k in ("ForStmt", "WhileStmt", "DoStmt"):
+            ex.loop_ids[x.get("id")] = len(ex.loop_ids)
+        if k == "UnaryOperator" and x.get("opcode") == "&":
+            c = x["inner"][0]
+            while c.get("kind") == "ParenExpr":
+                c = c["inner"][0]
+            if c.get("kind") == "DeclRefExpr" and c["referencedDecl"].get("kind") in ("VarDecl", "ParmVarDecl"):
+                ex.addr_taken.add(c["referencedDecl"]["id"])
+    for x in A.walk(fn):
+        if x.get("kind") in ("VarDecl", "ParmVarDecl") and "id" in x:
+            ex.local_ids.add(x["id"])
+            nm = x.get("name", "_")
+            names.setdefault(nm, x["id"])
+            q = x["type"].get("desugaredQualType") or x["type"]["qualType"]
+            from .symex import is_record_type, sort_of
+            if q.strip().endswith("&"):
+                st.locals[x["id"]] = ("ref", ("elem", tm.sym("L_%s_ref" % nm, "P"), tm.num(0, "I")))
+            elif is_record_type(q, ctx) or q.strip().endswith("]") or x["id"] in ex.addr_taken:
+                st.locals[x["id"]] = ("obj", tm.sym("&L_%s" % nm, "P"))
+            else:
+                st.locals[x["id"]] = tm.sym("L_%s" % nm, sort_of(q))
+    res = ex.iterate_loop(node, st)
+    info = {"names": names, "node": node, "nloops": len(loops)}
+    return fn, ex, res, info
